@@ -40,8 +40,8 @@ def binop (op : String) (a b : Int) : Out SRes :=
   | "%%" => if b = 0 then .throw else .ok (.int (Int.fmod a b))
   | "/!" => if b = 0 then .throw else if Int.fmod a b ≠ 0 then .throw else .ok (.int (Int.fdiv a b))
   | "^" =>
-    if 0 ≤ b then .ok (.int (a ^ b.toNat))
-    else if a = 0 then .ok .inf else .ok (.ratRecip (a ^ (-b).toNat))   -- 0^(-n) = 1/0: float infinity, like `/`
+    if 0 ≤ b then .ok (.int (NInt.ipow a b.toNat))          -- = a ^ b (Theorems/C06.ipow_eq)
+    else if a = 0 then .ok .inf else .ok (.ratRecip (NInt.ipow a (-b).toNat))   -- 0^(-n) = 1/0: float infinity, like `/`
   | "&" => .ok (.int (NInt.band a b))
   | "|" => .ok (.int (NInt.bor a b))
   | "~" => .ok (.int (NInt.bxor a b))
